@@ -685,5 +685,17 @@ def run(prog, tier, seed):
     if E is not None:
         dep = dep + adopt(T.results(T(c07.rule_pure4, prog, E)), PROP,
                           'no remembered fair structure')
+    # with F given, CTL* formulas go through the eliminator of state
+    # subformulas: the fairness label must reach every nested check
+    from . import c03
+
+    def _elim_fair(prog):
+        D = c03.discover(prog)
+        ra, rb = c03.rule_ctls12(prog, D, fair=True)
+        rb.findings = [f for f in rb.findings if 'fair-label' in f.key]
+        return rb
+    dep = dep + adopt(T.results(T(_elim_fair, prog)), PROP,
+                      'fair CTL*: nested state subformulas are checked under '
+                      'the same fairness label')
     return T.results(r1, r2, r4, r3, r5, r6) + dep, expl, assumptions, \
         T.extra()
